@@ -9,13 +9,27 @@ def _produced(g):
 
 
 def waiter_with_edge_default(case, msg, observed=None):
-    """A node that has wait_for AND a default on an upstream-fed parameter (it runs once on the default; the
-    ordering signal is not produced again, so the upstream value never reaches it)."""
+    """A node that has wait_for and - itself or through one of its data ancestors - depends on a parameter that has a
+    signature default AND is fed by an upstream node: the defaulted node runs early on the default, the waiter consumes its
+    one signal on that early value, and is never re-run when the upstream value arrives (the signal is not produced again)."""
     g = case.get("graph") if isinstance(case, dict) else None
     if not g:
         return False
     prod = _produced(g)
-    return any(n.get("wait_for") and any(p in prod for p in n.get("defaults", {})) for n in g["nodes"])
+    producer = {}
+    for n in g["nodes"]:
+        for o in list(n.get("outputs", [])):
+            producer.setdefault(o, n)
+
+    def tainted(n, seen):
+        if n["name"] in seen:
+            return False
+        seen.add(n["name"])
+        if any(p in prod for p in n.get("defaults", {})):
+            return True
+        return any(p in producer and tainted(producer[p], seen) for p in n.get("inputs", []))
+
+    return any(n.get("wait_for") and tainted(n, set()) for n in g["nodes"])
 
 
 def ambiguous_cycle_entry(case, msg, observed=None):
